@@ -2,7 +2,8 @@ import SpecVerif.Model.RealFn
 /-
   mtm.py `dpss(N, NW, k)`: the Python glue around the C eigen-solver `multitap` (a PARAMETER: it supplies `k` raw
   tapers of length `N`, assumed mutually orthogonal with norm `√N`, and their sums).  The glue rescales by `1/√N`,
-  applies the sign convention (even-index tapers: non-negative sum; odd-index tapers: non-negative first sample) and
+  applies the sign convention (even-index tapers: non-negative sum; odd-index tapers: non-negative first NON-NEGLIGIBLE sample,
+  i.e. the first one above 1% of the largest magnitude) and
   recomputes the concentration ratios as `Σ_d acvs_d · r_d` with `r_0 = 2W`, `r_d = 4W·sinc(2W d)`, `W = NW/N`.
 -/
 namespace SpecVerif
@@ -11,10 +12,20 @@ open RealFn
 section
 variable {R : Type} [Add R] [Sub R] [Mul R] [Div R] [Neg R] [OfNat R 0] [OfNat R 1] [NatCast R] [RealFn R]
 
+/-- largest magnitude of a list -/
+def absMax (t : List R) : R := t.foldl (fun m v => if lt m (abs v) then abs v else m) 0
+
+/-- the first sample that is not negligible (magnitude above 1% of the largest one); `0` if there is none.  The code reads
+    the sign of the leading lobe of an antisymmetric taper from this sample (the very first samples of a long, wide-band
+    taper are below the round-off of the eigen-solver) -/
+def firstSignificant (t : List R) : R :=
+  let thr := absMax t / ((100 : Nat) : R)
+  (t.find? (fun v => lt thr (abs v))).getD 0
+
 /-- one taper after scaling and the sign flip; `i` = its index, `raw` the C routine's column, `ts` its reported sum -/
 def dpssTaper (N i : Nat) (raw : List R) (ts : R) : List R :=
   let t := vec N (fun n => raw.getD n 0 / sqrt (N : R))
-  let flip : Bool := if i % 2 = 0 then lt ts 0 else lt (t.getD 0 0) 0
+  let flip : Bool := if i % 2 = 0 then lt ts 0 else lt (firstSignificant t) 0
   if flip then t.map (fun v => -v) else t
 
 /-- lag-`d` autocovariance `Σ_n t[n]·t[n+d]` (the code's `_autocov(…, debias=False) * N`, an FFT convolution) -/
